@@ -1,6 +1,64 @@
-(* Ops/C02.v — protocol entry points for property C02 (stub until the model is built). *)
-From Coq Require Import List String.
-From PrefVerif Require Import Lib.Val.
+(* Ops/C02.v — protocol entry points for property C02 (incremental construction of ordinal instances).
+   c02.history  payload: ((kind data) ...)   kind 0 AppendOrder (a ...) | 1 AppendArray ((a ...) ...)
+                                           | 2 AppendList (order ...)  | 3 AppendVoteMap ((order k) ...)
+                answer : the observation of the fresh state followed by one observation per operation. *)
+From Coq Require Import List ZArith NArith String.
+From PrefVerif Require Import Lib.Val Lib.Dec Model.OrdState.
 Import ListNotations.
+Open Scope string_scope.
 
-Definition ops : optable := [].
+Definition d_class (v : val) : list N := dlist dN v.
+Definition d_order (v : val) : order := dlist d_class v.
+Definition d_op (v : val) : op :=
+  match dnat (dnth 0 v) with
+  | 0 => AppendOrder (d_class (dnth 1 v))
+  | 1 => AppendArray (dlist d_class (dnth 1 v))
+  | 2 => AppendList (dlist d_order (dnth 1 v))
+  | _ => AppendVoteMap (dlist (dpair d_order dN) (dnth 1 v))
+  end.
+
+Definition e_class (c : list N) : val := elist eN c.
+Definition e_order (o : order) : val := elist e_class o.
+Definition e_dt (d : dt) : val :=
+  VI (match d with Soc => 0 | Soi => 1 | Toc => 2 | Toi => 3 | DNone => 4 end)%Z.
+
+Definition observe (raised : bool) (ms : list order) (s : state) : val :=
+  VL [ elist (epair e_order eN) (mult s);            (* 0  multiplicity.items() *)
+       elist e_order (ords s);                       (* 1  orders *)
+       eN (n_vot s);                                 (* 2  num_voters *)
+       eN (n_uniq s);                                (* 3  num_unique_orders *)
+       eN (n_alt s);                                 (* 4  num_alternatives *)
+       elist (epair eN (elist eN)) (alts s);         (* 5  alternatives_name.items() *)
+       e_dt (dtype s);                               (* 6  data_type *)
+       eresult e_dt (infer_type s);                  (* 7  infer_type() *)
+       elist e_order (full_profile s);               (* 8  full_profile() *)
+       elist (epair e_order eN) (vote_map s);        (* 9  vote_map().items() *)
+       elist (epair e_class eN) (flatten_strict s);  (* 10 flatten_strict() *)
+       ebool (is_strict s);                          (* 11 *)
+       eresult ebool (is_complete s);                (* 12 *)
+       eresult enat (largest_ballot s);              (* 13 *)
+       eresult enat (smallest_ballot s);             (* 14 *)
+       enat (max_num_indif s);                       (* 15 *)
+       enat (min_num_indif s);                       (* 16 *)
+       enat (largest_indif s);                       (* 17 *)
+       enat (smallest_indif s);                      (* 18 *)
+       ebool (sanity_ok s);                          (* 19 sanity.orders: no complaint (label check apart) *)
+       ebool (sanity_zero_ok s);                     (* 20 *)
+       ebool raised;                                 (* 21 the call raised (ValueError from infer_type) *)
+       elist e_order (ords s);                       (* 22 preferences (alias of orders) *)
+       e_dt (spec_type ms) ].                        (* 23 the type of the multiset of votes added so far,
+                                                           by definition (Proofs: = data_type when ms <> []) *)
+
+Fixpoint observe_run (s : state) (ms : list order) (ops : list op) : list val :=
+  match ops with
+  | [] => []
+  | o :: r =>
+      let s' := step s o in
+      let ms' := (ms ++ votes o)%list in
+      observe (step_raises s o) ms' s' :: observe_run s' ms' r
+  end.
+
+Definition op_history (v : val) : val :=
+  VL (observe false [] init :: observe_run init [] (dlist d_op v)).
+
+Definition ops : optable := [ ("c02.history", op_history) ].
